@@ -223,6 +223,38 @@ def run_plan(r, w, plan, tags):
                        f"apply returned {show(got) if isinstance(got, Raised) else show(guard(observe_state, got))}",
                        "ValueError", str(got)[:200], tags=tags)
                 return False
+    # (e) the same plan on ONE State object that is changed in place after every step (a simulator's loop): the state
+    # is asked before each step, the step's successor is computed by a fresh operator with skip_validation, and the
+    # object's tables are then overwritten with that successor's
+    from ..bridge import make_state
+    cur = create_initial_state(parse_problem(md.ALL[w.name][1], w.D))
+    ref_cur = w.init
+    for i, s in enumerate(plan):
+        ok, want = expected_next(w, s, ref_cur, False)
+        if ok is None:
+            break
+        asked = guard(lambda: operator(w.D, s[0], s[1:], w.P.objects).is_applicable(cur))
+        r.count("transitions")
+        if asked is not ok:
+            r.fail("in-place-applicability", f"plan {plan} step {i} {line(s)}: one State object changed in place after every "
+                   f"step now holds {ref_cur.to_json()} (reads {show(guard(observe_state, cur))}); is_applicable = "
+                   f"{asked}, expected {ok}", ok, str(asked), tags=tags + ["in-place"])
+            return False
+        if not ok:
+            continue
+        nxt = guard(lambda: operator(w.D, s[0], s[1:], w.P.objects).apply(cur, skip_validation=True))
+        obs = guard(observe_state, nxt) if not isinstance(nxt, Raised) else nxt
+        if isinstance(obs, Raised) or not same_state(obs, want):
+            r.fail("direct-successor", f"plan {plan} step {i}: apply(..., skip_validation=True) on a fresh operator from "
+                   f"{ref_cur.to_json()} gave {show(obs)}, expected {want.to_json()}", want.to_json(), show(obs),
+                   tags=tags + ["skip-validation"])
+            return False
+        cur.state_predicates.clear()
+        cur.state_predicates.update(nxt.state_predicates)
+        cur.state_fluents.clear()
+        cur.state_fluents.update(nxt.state_fluents)
+        cur.is_init = False
+        ref_cur = want
     return True
 
 
